@@ -29,6 +29,7 @@ specs["C01"] = {"runs": [
     run("resolver:Harness_C01_resolve", QT, {"K": 3, "M": 1, "L": 1, "tight": 1, "prelude": 1}, "real", "all", cover=["acyclic-book", "nesting>=2"], note="every book under the default limit 10 and under the tightest limit that admits it (longest chain + 1), alone and after a failing resolution of a cyclic book with the same recipe names (sync.Pool modelled as a LIFO free list)"),
     run("resolver:Harness_C01_resolve", QT, {"K": 3, "M": 2, "L": 1}, "real", "all", cover=["acyclic-book", "nesting>=2"], note="9261 books of 3 recipes x <=2 ingredients over {3 recipes, 1 leaf}, 873 acyclic, x 3! visiting orders x 2 entry points"),
     run("resolver:Harness_C01_resolve", QT, {"K": 2, "M": 3, "L": 2}, "real", "all", cover=["acyclic-book"], note="repeated ingredients, two basic elements"),
+    run("resolver:Harness_C01_resolve", QT, {"K": 3, "M": 1, "L": 3, "oddleaves": 1, "lateapi": 1}, "real", "all", cover=["acyclic-book"], note="element names that share a prefix followed by '/' in one and by a lower byte in the others (sort order); third entry point: a Resolver created before the last recipe is pushed"),
     run("resolver:Harness_C01_idempotent", QT, {"K": 3, "M": 2, "L": 1}, "fp", "all", note="IEEE-754 encoding: re-resolving through the other entry point is bit-identical"),
     run("resolver:Harness_C01_resolve", T, {"K": 3, "M": 2, "L": 3}, "real", "all", cover=["acyclic-book", "nesting>=2"]),
     run("resolver:Harness_C01_resolve", T, {"K": 3, "M": 2, "L": 1, "tight": 1}, "real", "all", cover=["acyclic-book", "nesting>=2"]),
@@ -43,6 +44,7 @@ specs["C01"] = {"runs": [
 specs["C11"] = {"runs": [
     run("resolver:Harness_C11_depth", QT, {"K": 2, "M": 2, "L": 1, "Nmax": 3}, "fp", "all", cover=["deep-or-cyclic", "chain==N", "chain==N-1"], depth_is_violation=True, note="every graph on 2 recipes x <=2 ingredients, N in 1..3"),
     run("resolver:Harness_C11_depth", QT, {"K": 3, "M": 1, "L": 1, "Nmax": 4}, "fp", "all", cover=["deep-or-cyclic", "chain==N", "chain==N-1"], depth_is_violation=True, note="every chain and cycle of length <= 3, N in 1..4, 3! orders"),
+    run("resolver:Harness_C11_depth", QT, {"K": 2, "M": 2, "L": 1, "Nmax": 3, "prelude": 1}, "fp", "all", cover=["deep-or-cyclic"], depth_is_violation=True, note="the same outcome after an earlier failing resolution of another book with the same recipe names in the same process"),
     run("resolver:Harness_C05_resolve_twice", QT, {"K": 3, "M": 1, "L": 1, "Nmax": 4}, "fp", "all", owned=["same-error-status"], note="the outcome is the same under two independently chosen visiting orders"),
     run("cmd/hranoprovod-cli:Harness_app_maxdepth", QT, {}, owned=["maxdepth:"], cover=["ran"], note="whole application: N = 1..4, 10 from flag, environment and configuration file, nine commands"),
     run("cmd/hranoprovod-cli:Harness_app_cyclic_book", QT, {}, owned=["cyclic-book-is-error", "terminates"], cover=["ran"], depth_is_violation=True, note="whole application: cyclic books under --maxdepth unset/-1/0/1/2"),
@@ -90,6 +92,7 @@ specs["C03"] = {"runs": [
     run(CMD + "balance:Harness_balance_modes", QT, {"F": 2, "deep": 1}, "real", cover=["printed"], note="category paths of up to nine segments (six paths, every set of <=2)"),
     run(CMD + "balance:Harness_golden_concrete", QT, {}, "fp", owned=["golden-"], cover=["golden-balance"], concrete_fmt=True, note="translator validation: the executor, all-concrete, reproduces the repository's five golden balance outputs byte for byte from testAssets/{food,log}.yaml"),
     run(CMD + "balance:Harness_balance_single", Q, {"F": 2, "catalogue": 6}, "real", cover=["printed"], note="--single-element X in all three modes: foods defining X (any amount incl. 0), defined without X, undefined"),
+    run("_root:Harness_merge_duplicates", QT, {"E": 5}, "real", cover=["merged"], note="the quantities of a day's repeated foods are conserved by the merge that feeds every report: every repetition pattern of <=5 entries over three foods"),
     run(CMD + "balance:Harness_balance_single", T, {"F": 3, "catalogue": 14}, "real", cover=["printed"]),
     run(CMD + "balance:Harness_reports_agree", Q, {"D": 1, "E": 2}, "real", owned=["balance-grand-total=sum-of-top-rows", "balance-rows-well-formed", "balance-grand-total-labelled"], note="--single-element: grand total = sum of the top-level rows"),
     run("cmd/hranoprovod-cli:Harness_app_pipeline", QT, {'command': 2}, "real", cover=["ran"], note='whole application, `balance -s x` on book and log text: grand total = sum over logged foods of quantity x resolved amount (through the real parser and resolver)'),
@@ -126,6 +129,7 @@ specs["C06"] = {"runs": [
     run("cmd/hranoprovod-cli:Harness_app_period", T, {"R": 3}, cover=["ran"]),
     run("cmd/hranoprovod-cli:Harness_app_stats_today", QT, {}, owned=["today:", "stats-ok"], cover=["ran"], note="--today independent of the process time zone (explored: UTC, UTC-5, UTC+13)"),
     run("cmd/hranoprovod-cli:Harness_app_keywords", QT, {}, cover=["ran"], note="whole application: --begin/--end = today, yesterday, last7, last30 (globally or on the sub-command) against --today minus 0/1/7/30 days, symbolic dates"),
+    run("cmd/hranoprovod-cli:Harness_app_keywords", QT, {"concrete": 1}, cover=["ran"], note="the same on fixed dates around month ends: calendar arithmetic on concrete instants in every explored time zone"),
     run(CMD + "options:Harness_today_and_period", QT, {}, cover=["loaded"], note="real urfave/cli Context and flag.FlagSet code: sub-command period overrides the global one; keywords resolve against --today"),
  ], "assumptions": ["dates within a 40-day window for the walk (any order, repeats allowed)"],
  "outside_claim": ["time-zone independence beyond the summary supplement", "internals of time.Parse/AddDate/Date"],
@@ -150,6 +154,7 @@ specs["C07"] = {"runs": [
     run("cmd/hranoprovod-cli:Harness_app_pipeline", QT, {'command': 16, 'posbook': 1, 'E': 1, 'shapes': 3}, "real", cover=["ran"], note='`register -s x` rows (positive, minus negative, sum per day) = the daily contributions to x, which add up to the period total'),
     run("cmd/hranoprovod-cli:Harness_app_pipeline", QT, {'command': 17, 'posbook': 1, 'E': 1, 'shapes': 3}, "real", cover=["ran"], note='`register -s x -g` rows = per-food contributions to x over the period'),
     run("cmd/hranoprovod-cli:Harness_app_pipeline", QT, {'command': 18, 'posbook': 1, 'E': 1, 'shapes': 3}, "real", cover=["ran"], note='`register -f PATTERN` rows = the matching logged foods per day, merged'),
+    run("cmd/hranoprovod-cli:Harness_app_odd_names_balance", QT, {}, cover=["ran"], note="a name with an empty path segment and its tidy spelling are different foods in `report quantity` and in the balance leaves"),
  ], "assumptions": [REAL, DATA],
  "outside_claim": ["stats day distances for symbolic dates (Time.Sub and Hours()/24 truncation: 64-bit multiplication by 10^9 is out of reach for the solvers; a concrete corpus is run instead)", "rendered digits"],
  "stubs": [FMT, BUFIO, CSVW, TIME]}
@@ -173,6 +178,7 @@ specs["C08"] = {"runs": c08 + [
     run("cmd/hranoprovod-cli:Harness_main_exit_status", QT, {}, owned=["no-panic"], note="main() under every scenario"),
     run("cmd/hranoprovod-cli:Harness_app_cyclic_book", QT, {}, owned=["no-panic", "terminates", "cyclic-book-is-error", "acyclic-book-resolves-under-default-limit"], cover=["ran"], depth_is_violation=True, note="whole application: three cyclic books and an acyclic one x --maxdepth in {unset, -1, 0, 1, 2} x four commands that resolve the book: terminates within the call-depth cap, cyclic books are errors"),
     run("cmd/hranoprovod-cli:Harness_app_odd_names", QT, {}, owned=["no-panic", "terminates"], cover=["ran"], depth_is_violation=True, max_steps=3000000, note="whole application: 9 names with stray separators, empty segments, quotes, long segments x 14 tree/register/export commands: terminates (step and call-depth budgets) without a panic"),
+    run("cmd/hranoprovod-cli:Harness_app_flag_combinations", QT, {}, owned=["no-panic", "terminates"], cover=["ran"], depth_is_violation=True, note="whole application: every subset of nine register flags and of three balance flags: terminates without a panic"),
     run("cmd/hranoprovod-cli:Harness_app_failing_stdout", QT, {}, owned=["no-panic"], note="16 commands on usual, empty, comment-only and other-layout logs"),
     run("cmd/hranoprovod-cli:Harness_app_single_food_patterns", QT, {}, owned=["no-panic", "malformed-pattern-is-error", "valid-pattern-runs"], cover=["ran"], note="`register -f PATTERN` with 4 well-formed and 8 malformed regular expressions (regexp.Compile executed from its real SSA)"),
     run("cmd/hranoprovod-cli:Harness_app_settings", Q, {"full": 0}, owned=["no-panic"], note="whole application under every source combination of the settings"),
@@ -208,6 +214,7 @@ specs["C12"] = {"runs": [
     run(CMD + "balance:Harness_compose_period", Q, {"E": 2}, "real", cover=["composed"]),
     run(CMD + "balance:Harness_compose_stream", QT, {}, "fp", cover=["composed"], note="through the real parser: log1 ++ log2 as text, symbolic dates, empty day blocks"),
     run("cmd/hranoprovod-cli:Harness_app_compose", QT, {}, "fp", cover=["composed"], note="whole application: 7 per-day command variants (default and left-aligned templates rendered, old reporter, csv log, print, single food, single element) on log1 ++ log2 vs log1 and log2: day blocks with symbolic dates (any order, same date), notes, an empty day, with or without --begin/--end"),
+    run("cmd/hranoprovod-cli:Harness_app_partial_report", QT, {}, "fp", owned=["earlier-days-shown-as-before"], cover=["ran"], note="appending a day with a malformed line does not change what is shown for the earlier days (six per-day commands)"),
     run("cmd/hranoprovod-cli:Harness_app_period", Q, {"R": 3, "command": 8}, cover=["ran"], note="a period report (`report quantity`) over three days in any order = the report of the selected days: days are independent"),
     run("cmd/hranoprovod-cli:Harness_app_twice", QT, {}, "real", "repo", owned=["same-output", "same-error-status"], cover=["ran-twice"], note="what is shown for a day does not depend on the visiting order of maps (names differing only in case, a day of 36 lines)"),
     run(CMD + "balance:Harness_compose_per_day", T, {"E": 2}, "real", cover=["composed"]),
@@ -219,7 +226,7 @@ specs["C13"] = {"runs": [
     run(CMD + "csv:Harness_csv_log", Q, {"n": 3, "m": 2}, cover=["exported"]),
     run(CMD + "csv:Harness_csv_database", Q, {"n": 3, "m": 2}, "fp", "all", cover=["exported"]),
     run("cmd/hranoprovod-cli:Harness_app_pipeline", QT, {'command': 3}, "real", cover=["ran"], note='whole application, `csv log`: one row per (day, distinct food), ISO date, merged quantity'),
-    run("cmd/hranoprovod-cli:Harness_app_pipeline", QT, {'command': 4}, "real", cover=["ran"], note='whole application, `csv database-resolved`: one row per (recipe, resolved element) sorted, nested recipes and repeated ingredients'),
+    run("cmd/hranoprovod-cli:Harness_app_pipeline", QT, {'command': 4, 'shapes': 4}, "real", cover=["ran"], note='whole application, `csv database-resolved`: one row per (recipe, resolved element) sorted, nested recipes, repeated ingredients, the empty recipe'),
     run(CMD + "balance:Harness_failing_output", QT, {"command": 8}, owned=["lost-output-is-error"], cover=["ran"], note="lossless or an error: `csv log` with a sink failing from its 1st/2nd/3rd write"),
     run(CMD + "balance:Harness_failing_output", QT, {"command": 9}, owned=["lost-output-is-error"], cover=["ran"], note="`csv database`"),
     run(CMD + "balance:Harness_failing_output", QT, {"command": 10}, owned=["lost-output-is-error"], cover=["ran"], note="`csv database-resolved`"),
@@ -285,6 +292,7 @@ specs["C17"] = {"runs": [
 
 specs["C18"] = {"runs": [
     run("parser:Harness_channel_protocol", Q, {"lines": 3}, cover=["observed"]),
+    run("parser:Harness_channel_protocol", QT, {"lines": 2, "configs": 1}, cover=["observed"], note="under the default configuration, the zero value and another comment character, on input with a line starting with #"),
     run("parser:Harness_channel_protocol", T, {"lines": 4}, cover=["observed"]),
     run("parser:Harness_channel_read_failure", QT, {}, cover=["observed"], note="reader failing at every offset: the error reaches the consumer"),
     run("parser:Harness_channel_parse_file", QT, {}, cover=["observed"], note="Parser.ParseFile vs ParseFileCallback on an existing file, a malformed file, a missing file and a directory (virtual file system)"),
